@@ -1,12 +1,15 @@
 """C03 — meta-filter output always stays inside the safety envelope.
 
-Oracles: (A) envelope predicates, (B) exact-rational reference pipeline, (C) metamorphic: permutation
-invariance, repeatability, purity (arguments never mutated).
+Oracles: (A) envelope predicates, (B) exact-rational reference pipeline (keys, values, provenance, reasons, metrics),
+(C) metamorphic: permutation invariance, repeatability, purity (arguments never mutated), and in-place edits of the
+SAME ctx/state/plan objects between calls (the result may depend on nothing but the current value of the arguments).
 """
 from __future__ import annotations
 
 import copy
 import math
+import os
+import random
 from fractions import Fraction
 from types import SimpleNamespace
 
@@ -15,16 +18,42 @@ from hypothesis import strategies as st
 from harness.runner import Sub, Violation, run_hypothesis, digest
 
 LEVEL = "exploration"
-RULE = ("Hypothesis-generated (deltas with forced duplicate targets, ops, cooldown history, turn, caps in the "
-        "validator's accepted ranges). Non-trivial = at least one duplicate target AND (>=2 pipeline stages fired "
-        "or a value sits exactly on / one ulp around a cap). Distinct = digest of the whole input.")
+RULE = ("Hypothesis-generated (deltas with forced duplicate targets over ids that are prefixes of one another / contain "
+        "':' / differ by case or digit count, 0..14 explicit deltas plus now and then a bulk of 65..160 distinct targets; "
+        "ops with repeated kinds in dict/attr/dataclass/kind-less shapes; op_idx valid, None, negative, out of range; "
+        "cooldown table and state.meta.cooldowns history built AROUND the turn so that ops sit just inside / just "
+        "outside / in the future of their window; turn through turn_id/turn/current_turn in int/str/float/junk "
+        "spellings; caps over the validator's accepted ranges incl. denormal, inf, churn relative to the number of "
+        "distinct targets; ctx as bare namespace, partial mapping (defaults), or the repo's validated config with "
+        "string-spelled numbers and other t4 leaves varied; state/meta as dict/object in all four mixes; plan as "
+        "dataclass/dict/namespace; now and then the whole problem scaled by 2**-515..2**-600 so that the squares of the "
+        "deltas are subnormal or 0.0; a second call after editing the same objects in place). Non-trivial = at least one "
+        "duplicate target AND (>=2 pipeline stages fired or a value sits exactly on / one ulp around a cap). "
+        "Distinct = digest of the whole input.")
 ASSUMPTIONS = ["delta magnitudes are any finite floats (intermediate and final sums may overflow: the exact sum is rounded, beyond the range it is +-inf and then clamped); attrs contain no ':'",
-               "L2 tolerance 1e-12 relative (one rounding of sqrt/division)"]
+               "L2 tolerance 1e-12 relative (one rounding of sqrt/division)",
+               "delta_norm_cap_l2 down to 5e-324 and whole problems scaled by 2**-515..2**-600 are generated (squares of "
+               "the deltas subnormal or 0.0; repo fixes f740775, 8d8c73f); the L2 envelope then allows half a denormal "
+               "step per component on top of the relative tolerance",
+               "metrics fields are read by their names (counts per stage, clamps, blocked ops, caps as coerced); "
+               "merged provenance = smallest op_idx / idx, as _combine_by_ckey documents"]
 
-IDS = ["n:a", "n:b", "e:a|r|b", "n:é", "n:a:b"]
+# delta_norm_cap_l2 below 1e-150 is generated since repo fix f740775 (finding t4-l2-norm-underflow)
+TINY_L2 = True
+# cases whose post-clamp sum of squares lies in (0, 1e-290) (subnormal squares) keep their tiny cap since repo fix
+# 8d8c73f (finding t4-l2-norm-subnormal-squares); with False the generator lifts the cap of such a case to 1e-150
+DENORMAL_SQ_BAND = True
+
+IDS = ["n:a", "n:b", "e:a|r|b", "n:é", "n:a:b", "n:a0", "n:B", "n:a-", "e:a|r|b2", "n:10", "n:9", "n:"]
 KINDS = ["node", "edge"]
-ATTRS = ["weight", "bias"]
-OPKINDS = ["Speak", "EditGraph", "RequestRetrieve", "CreateGraph", "Weird", ""]
+ATTRS = ["weight", "bias", "Weight"]
+OPKINDS = ["Speak", "EditGraph", "RequestRetrieve", "CreateGraph", "Weird", "", "SetMetaFilter", "editgraph"]
+CFG_KEYS = ["delta_norm_cap_l2", "novelty_cap_per_node", "churn_cap_edges", "cooldowns"]
+DEFAULTS = {"delta_norm_cap_l2": 1.5, "novelty_cap_per_node": 0.3, "churn_cap_edges": 64, "cooldowns": {}}
+TURN_NAMES = ("turn_id", "turn", "current_turn")
+DISTRACT = [None, {"weight_min": 0.0, "weight_max": 0.05}, {"weight_min": -0.01, "weight_max": 0.01},
+            {"weight_min": -1.0, "weight_max": -0.5}, {"enabled": False}, {"cache": {"enabled": False, "max_entries": 0}},
+            {"snapshot_every_n_turns": 3, "cache_bust_mode": "none"}]
 
 
 def _types():
@@ -34,88 +63,361 @@ def _types():
 
 # ---------------------------------------------------------------- strategies
 
-def _values(novelty):
-    dyadic = st.integers(-2048, 2048).map(lambda i: i / 1024.0)
-    around = st.sampled_from([novelty, -novelty, novelty * (1 + 2 ** -52), novelty * (1 - 2 ** -53),
-                              -novelty * (1 + 2 ** -52), 0.0, -0.0, 5e-324, -5e-324, 1e300, -1e300, 1e16, -1e16, 1.0,
-                              1e308, -1e308, 1.7976931348623157e308, -1.7976931348623157e308])
-    general = st.floats(allow_nan=False, allow_infinity=False)
-    small = st.floats(min_value=-2.0, max_value=2.0, allow_nan=False)
-    return st.one_of(dyadic, dyadic, around, general, small)
+# All strategies are module-level constants (building strategies inside the composite costs more than the cases);
+# values that depend on other draws are drawn as TOKENS and resolved afterwards.
+
+_NOV_MULTS = [1.0, -1.0, 1 + 2 ** -52, 1 - 2 ** -53, -(1 + 2 ** -52), 0.5]
+_S_VAL = st.one_of(
+    st.integers(-2048, 2048).map(lambda i: i / 1024.0),
+    st.integers(-2048, 2048).map(lambda i: i / 1024.0),
+    st.one_of(st.sampled_from(_NOV_MULTS).map(lambda f: ("nov", f)),
+              st.sampled_from([0.0, -0.0, 5e-324, -5e-324, 1e300, -1e300, 1e16, -1e16, 1.0, 1e308, -1e308,
+                               1.7976931348623157e308, -1.7976931348623157e308, 1, -1, 0, 1e-170, -1e-200, 9e-162, 3e-158,
+                               -2e-163, 1e-155])),
+    st.floats(allow_nan=False, allow_infinity=False),
+    st.floats(min_value=-2.0, max_value=2.0, allow_nan=False))
+_S_OPIDX = st.one_of(st.none(), st.integers(0, 7), st.integers(0, 7), st.integers(0, 7), st.integers(0, 7), st.integers(0, 7),
+                     st.integers(0, 7), st.none(), st.sampled_from(["neg1", "neg2", "negn", "n", "big"]))
+_S_DELTA = st.tuples(st.integers(0, 7), _S_VAL, _S_OPIDX, st.one_of(st.none(), st.integers(0, 20)))
+_S_DELTAS = st.one_of(st.lists(_S_DELTA, max_size=5), st.lists(_S_DELTA, min_size=3, max_size=9),
+                      st.lists(_S_DELTA, min_size=6, max_size=14))
+_S_POOL = st.lists(st.tuples(st.sampled_from(KINDS), st.sampled_from(IDS), st.sampled_from(ATTRS)), min_size=1, max_size=8,
+                   unique=True)
+_S_NOV = st.one_of(st.sampled_from([1.0, 0.3, 0.5, 0.25, 1e-9, 2 ** -10, 5e-324, 1e-300, 2.2250738585072014e-308]),
+                   st.floats(min_value=1e-12, max_value=1.0, exclude_min=False))
+_S_T = st.one_of(st.integers(0, 10), st.integers(0, 10), st.sampled_from([0, 1, 10 ** 9, 2 ** 63, -1]))
+_S_TMODE = st.sampled_from(["int"] * 6 + ["str", "float", "junk", "fallback", "turn", "current", "absent"])
+_S_JUNK = st.sampled_from(["junk", "", None, "3.5"])
+_S_KPOOL = st.lists(st.sampled_from(OPKINDS), min_size=1, max_size=3, unique=True)
+_S_OP = st.tuples(st.integers(0, 2), st.sampled_from(["dict", "ns", "dc"] * 3 + ["nokind", "nonekind"]))
+_S_OPS = st.one_of(st.lists(_S_OP, max_size=4), st.lists(_S_OP, min_size=2, max_size=8))
+_S_CDS = st.lists(st.tuples(st.sampled_from([0, 1, 1, 1, 1]),
+                            st.one_of(st.integers(0, 5), st.integers(1, 3), st.sampled_from([1, 10 ** 6, 2 ** 40])),
+                            st.sampled_from(["in", "edge_in", "edge_out", "out", "now", "future", "far_future", "junk", "absent"]),
+                            st.sampled_from(["float", "str", "none", "true"])), min_size=4, max_size=4)
+_S_EXTRA_KIND = st.tuples(st.booleans(), st.sampled_from(OPKINDS[:5]), st.sampled_from(range(8)), st.sampled_from(OPKINDS[:5]))
+_S_META = st.sampled_from(["dict"] * 3 + ["attr"] * 3 + ["dict_attr", "attr_dict"] * 2 + ["none", "state_none", "nondict", "meta_none"])
+_S_TRIPLE = st.one_of(st.none(), st.tuples(st.integers(0, 7), st.sampled_from([1e16, 1e300, 3.0, 0.1, 1e308]),
+                                           st.sampled_from([1.0, 0.25, 1e-3]), st.booleans()))
+_S_BULK = st.tuples(st.sampled_from([0] + [1] * 19), st.integers(0, 2 ** 16), st.integers(65, 160), st.sampled_from(["pad", "plain", "edge"]),
+                    st.sampled_from(["tie", "grid", "mixed"]))
+_S_L2 = st.one_of(st.sampled_from([1.5, 1e-9, 1e6, 0.3, 0.5, 1.0, 2 ** -5, 1e308, math.inf, "floor"]),
+                  st.sampled_from([0.5, 1.0, 1.5, 2.5]).map(lambda f: ("nov", f)),
+                  st.floats(min_value=1e-9, max_value=1e3))
+_S_CHURN = st.one_of(st.integers(0, 10 ** 6).map(lambda k: ("uni", k)),
+                     st.sampled_from([-2, -1, 0, 1]).map(lambda k: ("rel", k)),
+                     st.sampled_from([-2, -1, 0, 1]).map(lambda k: ("rel", k)),
+                     st.integers(0, 3), st.sampled_from([64, 65, 2 ** 31, 10 ** 18]))
+_S_SEED = st.integers(0, 2 ** 32)
+_S_FLOOR = st.sampled_from([1e-300, 1e-200, 5e-324, 1e-160])
+_S_TINY = st.sampled_from([0] * 12 + [515, 530, 538, 600])  # whole problem scaled by 2**-k (exact) into the underflow regime
+_S_CFG = st.sampled_from(["full"] * 5 + ["validated"] * 5 + ["partial"] * 3 + ["no_t4", "no_config"])
+_S_OMIT = st.lists(st.sampled_from(CFG_KEYS), min_size=1, max_size=3, unique=True)
+_S_MISC = st.tuples(st.sampled_from(["dc", "dc", "dict", "ns"]), st.booleans(), st.booleans(),
+                    st.sampled_from(["num", "num", "str"]), st.sampled_from(DISTRACT))
+_S_EDIT = st.one_of(st.none(), st.none(), st.fixed_dictionaries(
+    {"turn_shift": st.integers(-2, 6), "last_shift": st.integers(-3, 3)},
+    optional={"churn": st.sampled_from([0, 1, ("rel", -1), ("rel", 1), 2 ** 31]),
+              "novelty": st.sampled_from([1.0, 0.3, 2 ** -10, 1e-9]),
+              "l2": st.sampled_from([1.5, 1e-9, 1e6, 2 ** -5]),
+              "cd_scale": st.sampled_from([0, 2, 10]),
+              "keep": st.sampled_from(["rev", "drop_first", "drop_last", "half"]),
+              "ops": st.sampled_from(["rev", "drop_last"])}))
+
+
+def _bulk(seed, n, style, vals, novelty, n_ops):
+    """Deterministic expansion of a bulk of n distinct targets (kept out of Hypothesis' choice sequence)."""
+    rng = random.Random(seed)
+    out = []
+    for i in range(n):
+        tid = {"pad": f"n:{i:03d}", "plain": f"n:{i}", "edge": f"e:{i}|r|{n - i}"}[style]
+        if vals == "tie":
+            v = rng.choice([novelty, -novelty, 2.0, -2.0, novelty / 2])
+        elif vals == "grid":
+            v = rng.randint(-64, 64) / 1024.0
+        else:
+            v = rng.choice([rng.uniform(-1, 1), rng.randint(-8, 8) / 8.0, 1e300, 5e-324, 0.0])
+        op_idx = rng.choice([None] + list(range(n_ops))) if n_ops else None
+        out.append({"k": "edge" if style == "edge" else "node", "id": tid, "attr": "weight", "v": v, "op_idx": op_idx,
+                    "idx": rng.choice([None, i])})
+    return out
 
 
 @st.composite
 def cases(draw):
-    novelty = draw(st.one_of(st.sampled_from([1.0, 0.3, 0.5, 0.25, 1e-9, 2 ** -10]),
-                             st.floats(min_value=1e-12, max_value=1.0, exclude_min=False)))
-    n_ops = draw(st.integers(0, 4))
-    ops = []
-    for _ in range(n_ops):
-        k = draw(st.sampled_from(OPKINDS))
-        shape = draw(st.sampled_from(["dict", "ns", "dc"]))
-        ops.append({"kind": k, "shape": shape})
-    n = draw(st.integers(0, 12))
-    # forced duplicates: targets are drawn from a small pool chosen first
-    pool = draw(st.lists(st.tuples(st.sampled_from(KINDS), st.sampled_from(IDS), st.sampled_from(ATTRS)),
-                         min_size=1, max_size=4, unique=True))
+    l2_floor = draw(_S_FLOOR) if TINY_L2 else 1e-150
+    novelty = draw(_S_NOV)
+    # ---- turn
+    t, tmode, junk = draw(_S_T), draw(_S_TMODE), draw(_S_JUNK)
+    turn_names = {"int": {"turn_id": t}, "str": {"turn_id": f" {t} "}, "float": {"turn_id": t + 0.5} if t < 2 ** 50 else {"turn_id": t},
+                  "junk": {"turn_id": junk}, "fallback": {"turn_id": junk, "turn": t, "current_turn": t + 1},
+                  "turn": {"turn": t}, "current": {"current_turn": t}, "absent": {}}[tmode]
+    T = ref_turn({"turn_names": turn_names})
+    # ---- ops: kinds from a small per-case pool, so several ops of one kind are the rule
+    kpool = draw(_S_KPOOL)
+    ops = [{"kind": kpool[ki % len(kpool)], "shape": shape} for ki, shape in draw(_S_OPS)]
+    n_ops = len(ops)
+    # ---- cooldown table and history AROUND the turn
+    cooldowns, last = {}, {}
+    has_extra, extra_kind, stray, stray_kind = draw(_S_EXTRA_KIND)
+    for k, (skip, cd, where, jk) in zip(kpool + ([extra_kind] if has_extra else []), draw(_S_CDS)):
+        if skip == 0:
+            continue
+        cooldowns[k] = cd
+        if where == "absent":
+            continue
+        if where == "junk":
+            last[k] = {"float": float(T), "str": str(T), "none": None, "true": True}[jk]
+        else:
+            last[k] = {"in": T - cd // 2, "edge_in": T - cd + 1, "edge_out": T - cd, "out": T - cd - 3, "now": T,
+                       "future": T + 1, "far_future": T + 10 ** 6}[where]
+    if stray == 0:  # history for kinds without a configured cooldown
+        last.setdefault(stray_kind, T)
+    meta_shape = draw(_S_META)
+    # ---- deltas
+    pool = draw(_S_POOL)
+    cover = draw(st.booleans())
     deltas = []
-    vals = _values(novelty)
-    for i in range(n):
-        tk, tid, attr = draw(st.sampled_from(pool))
-        v = draw(vals)
-        op_idx = draw(st.one_of(st.none(), st.integers(0, max(0, n_ops))))
-        idx = draw(st.one_of(st.none(), st.integers(0, 20)))
-        deltas.append({"k": tk, "id": tid, "attr": attr, "v": v, "op_idx": op_idx, "idx": idx})
+    for i, (pi, v, oi, idx) in enumerate(draw(_S_DELTAS)):
+        tk, tid, attr = pool[i] if (cover and i < len(pool)) else pool[pi % len(pool)]
+        if isinstance(v, tuple):
+            v = novelty * v[1]
+        if isinstance(oi, str):
+            oi = {"neg1": -1, "neg2": -2, "negn": -n_ops, "n": n_ops, "big": 10 ** 6}[oi]
+        elif oi is not None:
+            oi = (oi % n_ops) if n_ops else None
+        deltas.append({"k": tk, "id": tid, "attr": attr, "v": v, "op_idx": oi, "idx": idx})
     # cancellation triple now and then
-    if n >= 1 and draw(st.booleans()):
-        tk, tid, attr = draw(st.sampled_from(pool))
-        x = draw(st.sampled_from([1e16, 1e300, 3.0, 0.1, 1e308]))
-        y = draw(st.sampled_from([1.0, 0.25, 1e-3]))
-        vals_ = (x, x, -x, -x, y) if (x >= 1e308 or draw(st.booleans())) else (x, y, -x)  # intermediate sums may overflow
-        trip = [{"k": tk, "id": tid, "attr": attr, "v": v, "op_idx": None, "idx": None} for v in vals_]
-        deltas.extend(trip)
-    cooldowns = draw(st.dictionaries(st.sampled_from(OPKINDS[:5]), st.integers(0, 5), max_size=4))
-    last = draw(st.dictionaries(st.sampled_from(OPKINDS[:5]),
-                                st.one_of(st.integers(-2, 10), st.sampled_from([2.0, "3", None, True])), max_size=4))
-    meta_shape = draw(st.sampled_from(["dict", "attr", "none"]))
-    turn = draw(st.one_of(st.integers(0, 10), st.integers(0, 10).map(str), st.sampled_from(["junk", "", None, 3.7])))
-    l2 = draw(st.one_of(st.sampled_from([1.5, 1e-9, 1e6, 0.3, 0.5, 1.0, 2 ** -5]),
-                        st.floats(min_value=1e-9, max_value=1e3)))
-    churn = draw(st.integers(0, len(deltas) + 2))
-    perm = draw(st.permutations(list(range(len(deltas)))))
-    cfg_shape = draw(st.sampled_from(["full", "full", "partial"]))
-    return {"novelty": novelty, "l2": l2, "churn": churn, "ops": ops, "deltas": deltas, "cooldowns": cooldowns,
-            "last": last, "meta_shape": meta_shape, "turn": turn, "perm": list(perm), "cfg_shape": cfg_shape}
+    trip = draw(_S_TRIPLE)
+    if deltas and trip is not None:
+        pi, x, y, five = trip
+        tk, tid, attr = pool[pi % len(pool)]
+        vals_ = (x, x, -x, -x, y) if (x >= 1e308 or five) else (x, y, -x)  # intermediate sums may overflow
+        deltas.extend({"k": tk, "id": tid, "attr": attr, "v": v, "op_idx": None, "idx": None} for v in vals_)
+    bulk = draw(_S_BULK)
+    if bulk[0] == 0:
+        deltas.extend(_bulk(bulk[1], bulk[2], bulk[3], bulk[4], novelty, n_ops))
+    m = len({ckey(d) for d in deltas})
+    # ---- caps
+    l2 = draw(_S_L2)
+    l2 = l2_floor if l2 == "floor" else (max(novelty * l2[1], l2_floor) if isinstance(l2, tuple) else l2)
+    tiny = draw(_S_TINY) if TINY_L2 else 0
+    if tiny:
+        f = 2.0 ** -tiny
+        for d in deltas:
+            d["v"] = d["v"] * f
+        novelty = max(novelty * f, 5e-324)
+        l2 = max(l2 * f, 5e-324)
+    churn_of = lambda c: c if isinstance(c, int) else (max(0, m + c[1]) if c[0] == "rel" else c[1] % (len(deltas) + 3))
+    churn = churn_of(draw(_S_CHURN))
+    perm = list(range(len(deltas)))
+    random.Random(draw(_S_SEED)).shuffle(perm)
+    cfg_shape = draw(_S_CFG)
+    plan_shape, none_lists, extras, spell, distract = draw(_S_MISC)
+    case = {"novelty": novelty, "l2": l2, "churn": churn, "ops": ops, "deltas": deltas, "cooldowns": cooldowns,
+            "last": last, "meta_shape": meta_shape, "turn_names": turn_names, "perm": perm, "cfg_shape": cfg_shape,
+            "plan_shape": plan_shape, "none_lists": none_lists, "extras": extras}
+    if cfg_shape == "partial":
+        case["omit"] = draw(_S_OMIT)
+    if cfg_shape == "validated":
+        case["spell"] = spell
+        case["distract"] = distract
+    if not DENORMAL_SQ_BAND and eff_caps(case)[1] < 1e-150 and in_subnormal_band(case):
+        case["l2"] = 1e-150
+    edit = draw(_S_EDIT)
+    if edit is not None:
+        edit = dict(edit)
+        if "churn" in edit:
+            edit["churn"] = churn_of(edit["churn"])
+        case["edit"] = edit
+    return case
+
+
+def apply_edit(case, edit):
+    """Pure: the case as it looks after the in-place edit."""
+    c = copy.deepcopy(case)
+    c.pop("edit", None)
+    shift = lambda v, k: v + k if (isinstance(v, int) and not isinstance(v, bool)) else v
+    c["turn_names"] = {n: shift(v, edit.get("turn_shift", 0)) for n, v in turn_names_of(case).items()}
+    c.pop("turn", None)
+    c["last"] = {k: shift(v, edit.get("last_shift", 0)) for k, v in case["last"].items()}
+    for k in ("churn", "novelty", "l2"):
+        if k in edit:
+            c[k] = edit[k]
+    if "cd_scale" in edit:
+        c["cooldowns"] = {k: v * edit["cd_scale"] for k, v in case["cooldowns"].items()}
+    ds = list(c["deltas"])
+    keep = edit.get("keep")
+    if keep == "rev":
+        ds.reverse()
+    elif keep == "drop_first":
+        ds = ds[1:]
+    elif keep == "drop_last":
+        ds = ds[:-1]
+    elif keep == "half":
+        ds = ds[::2]
+    c["deltas"] = ds
+    c["perm"] = list(range(len(ds)))
+    if edit.get("ops") == "rev":
+        c["ops"] = list(reversed(c["ops"]))
+    elif edit.get("ops") == "drop_last":
+        c["ops"] = c["ops"][:-1]
+    return c
 
 
 # ---------------------------------------------------------------- build real arguments
 
-def build(case, order=None):
+def turn_names_of(case):
+    if "turn_names" in case:
+        return case["turn_names"]
+    return {"turn_id": case["turn"]}
+
+
+def _spell(case, v):
+    if case.get("spell") == "str" and not isinstance(v, dict):
+        return repr(v) if isinstance(v, float) else str(v)
+    return v
+
+
+def build_ops(case):
     ProposedDelta, OpRef, EditGraphOp, SpeakOp, Plan = _types()
+    from clematis.engine.types import CreateGraphOp, SetMetaFilterOp
     ops = []
     for o in case["ops"]:
-        if o["shape"] == "dict":
-            ops.append({"kind": o["kind"]})
-        elif o["shape"] == "ns" or o["kind"] not in ("Speak", "EditGraph"):
-            ops.append(SimpleNamespace(kind=o["kind"]))
-        elif o["kind"] == "Speak":
+        k, shape = o["kind"], o["shape"]
+        if shape == "dict":
+            ops.append({"kind": k})
+        elif shape == "nokind":
+            ops.append({"type": k})
+        elif shape == "nonekind":
+            ops.append(SimpleNamespace(kind=None, was=k))
+        elif shape == "dc" and k == "Speak":
             ops.append(SpeakOp(kind="Speak", intent="ack", topic_labels=[], max_tokens=8))
-        else:
+        elif shape == "dc" and k == "EditGraph":
             ops.append(EditGraphOp(kind="EditGraph", edits=[], cap=4))
+        elif shape == "dc" and k == "CreateGraph":
+            ops.append(CreateGraphOp(kind="CreateGraph", title="t", tags=[]))
+        elif shape == "dc" and k == "SetMetaFilter":
+            ops.append(SetMetaFilterOp(kind="SetMetaFilter", params={"churn_cap": 1, "novelty_cap": 1e-3, "cooldown_s": 99}))
+        else:
+            ops.append(SimpleNamespace(kind=k))
+    return ops
+
+
+def build_deltas(case, order=None):
+    ProposedDelta = _types()[0]
     idxs = order if order is not None else range(len(case["deltas"]))
-    deltas = [ProposedDelta(target_kind=d["k"], target_id=d["id"], attr=d["attr"], delta=d["v"], op_idx=d["op_idx"],
-                            idx=d["idx"]) for d in (case["deltas"][i] for i in idxs)]
-    plan = Plan(version="t3-plan-v1", ops=ops, deltas=deltas)
-    t4 = {"delta_norm_cap_l2": case["l2"], "novelty_cap_per_node": case["novelty"], "churn_cap_edges": case["churn"],
-          "cooldowns": dict(case["cooldowns"])}
-    ctx = SimpleNamespace(config=SimpleNamespace(t4=t4), turn_id=case["turn"])
-    if case["meta_shape"] == "dict":
-        state = {"meta": {"cooldowns": dict(case["last"])}}
-    elif case["meta_shape"] == "attr":
-        state = SimpleNamespace(meta=SimpleNamespace(cooldowns=dict(case["last"])))
+    return [ProposedDelta(target_kind=d["k"], target_id=d["id"], attr=d["attr"], delta=d["v"], op_idx=d["op_idx"],
+                          idx=d["idx"]) for d in (case["deltas"][i] for i in idxs)]
+
+
+def build_t4(case, rev=False):
+    it = lambda d: dict(reversed(list(d.items()))) if rev else dict(d)
+    t4 = {"delta_norm_cap_l2": _spell(case, case["l2"]), "novelty_cap_per_node": _spell(case, case["novelty"]),
+          "churn_cap_edges": _spell(case, case["churn"]), "cooldowns": {k: _spell(case, v) for k, v in it(case["cooldowns"]).items()}}
+    if rev:
+        t4 = dict(reversed(list(t4.items())))
+    for k in case.get("omit", []) if case.get("cfg_shape") == "partial" else []:
+        t4.pop(k, None)
+    return t4
+
+
+def build_state(case, rev=False):
+    lastmap = dict(reversed(list(case["last"].items()))) if rev else dict(case["last"])
+    ms = case["meta_shape"]
+    if ms == "dict":
+        return {"meta": {"cooldowns": lastmap}}
+    if ms == "attr":
+        return SimpleNamespace(meta=SimpleNamespace(cooldowns=lastmap))
+    if ms == "dict_attr":
+        return {"meta": SimpleNamespace(cooldowns=lastmap), "store": None}
+    if ms == "attr_dict":
+        return SimpleNamespace(meta={"cooldowns": lastmap})
+    if ms == "nondict":
+        return {"meta": {"cooldowns": [list(kv) for kv in lastmap.items()]}}
+    if ms == "meta_none":
+        return {"meta": None}
+    if ms == "state_none":
+        return None
+    return {}
+
+
+def build(case, order=None, rev=False):
+    ProposedDelta, OpRef, EditGraphOp, SpeakOp, Plan = _types()
+    ops = build_ops(case)
+    deltas = build_deltas(case, order)
+    none_lists = case.get("none_lists", False)
+    ops_v = None if (none_lists and not ops) else ops
+    deltas_v = None if (none_lists and not deltas) else deltas
+    ps = case.get("plan_shape", "dc")
+    if ps == "dict":
+        plan = {"version": "t3-plan-v1", "ops": ops_v, "deltas": deltas_v}
+    elif ps == "ns":
+        plan = SimpleNamespace(ops=ops_v, deltas=deltas_v)
     else:
-        state = {}
-    return ctx, state, plan
+        plan = Plan(version="t3-plan-v1", ops=ops_v, deltas=deltas_v)
+    t4 = build_t4(case, rev)
+    cs = case.get("cfg_shape", "full")
+    if cs == "validated":
+        from harness import world
+        over = dict(t4)
+        for k, v in (case.get("distract") or {}).items():
+            over[k] = copy.deepcopy(v)
+        cfg = world.validated_cfg({"t4": over})
+        ctx = world.make_ctx(cfg)
+        del ctx.turn_id
+    elif cs == "no_t4":
+        ctx = SimpleNamespace(config=SimpleNamespace(t3={}))
+    elif cs == "no_config":
+        ctx = SimpleNamespace(cfg={"t4": t4})
+    else:
+        ctx = SimpleNamespace(config=SimpleNamespace(t4=t4))
+    for name, v in turn_names_of(case).items():
+        setattr(ctx, name, v)
+    return ctx, build_state(case, rev), plan
+
+
+def _containers(ctx, state, plan):
+    """The mutable leaf containers a caller could edit between two calls (identity preserved)."""
+    t4 = getattr(getattr(ctx, "config", None), "t4", None)
+    meta = state.get("meta") if isinstance(state, dict) else getattr(state, "meta", None)
+    lastc = meta.get("cooldowns") if isinstance(meta, dict) else getattr(meta, "cooldowns", None)
+    get = (lambda k: plan.get(k)) if isinstance(plan, dict) else (lambda k: getattr(plan, k))
+    return t4, lastc, get("ops"), get("deltas")
+
+
+def edit_in_place(objs, objs2):
+    """Make the argument objects of the first call equal to a fresh build of the edited case WITHOUT replacing any of
+    the containers (ctx, config, t4 mapping, cooldown table, state, meta, history map, plan, ops list, delta list)."""
+    (ctx, state, plan), (ctx2, state2, plan2) = objs, objs2
+    t4, lastc, ops, deltas = _containers(ctx, state, plan)
+    t4b, lastb, opsb, deltasb = _containers(ctx2, state2, plan2)
+    if isinstance(t4, dict):
+        new = dict(t4b)
+        cd = t4.get("cooldowns")
+        if isinstance(cd, dict) and isinstance(new.get("cooldowns"), dict):
+            fresh = dict(new["cooldowns"])
+            cd.clear()
+            cd.update(fresh)
+            new["cooldowns"] = cd
+        t4.clear()
+        t4.update(new)
+    for name in TURN_NAMES:
+        if hasattr(ctx2, name):
+            setattr(ctx, name, getattr(ctx2, name))
+    if isinstance(lastc, dict):
+        fresh = dict(lastb)
+        lastc.clear()
+        lastc.update(fresh)
+    elif isinstance(lastc, list):
+        lastc[:] = lastb
+    for a, b, key in ((ops, opsb, "ops"), (deltas, deltasb, "deltas")):
+        if isinstance(a, list) and isinstance(b, list):
+            a[:] = b
+        elif isinstance(plan, dict):
+            plan[key] = b
+        else:
+            setattr(plan, key, b)
 
 
 # ---------------------------------------------------------------- reference model
@@ -124,25 +426,50 @@ def ckey(d):
     return f"{d['k']}:{d['id']}:{d['attr']}"
 
 
-def ref_turn(turn):
-    try:
-        return int(turn)
-    except Exception:
-        return 0
+def ref_turn(case):
+    names = turn_names_of(case)
+    for name in TURN_NAMES:
+        if name in names:
+            try:
+                return int(names[name])
+            except Exception:
+                pass
+    return 0
+
+
+def eff_caps(case):
+    """(novelty, l2, churn, cooldowns) the documented accessor arrives at."""
+    cs = case.get("cfg_shape", "full")
+    if cs in ("no_t4", "no_config"):
+        present = {}
+    else:
+        present = {"delta_norm_cap_l2": case["l2"], "novelty_cap_per_node": case["novelty"], "churn_cap_edges": case["churn"],
+                   "cooldowns": case["cooldowns"]}
+        if cs == "partial":
+            for k in case.get("omit", []):
+                present.pop(k, None)
+    eff = dict(DEFAULTS)
+    eff.update(present)
+    return float(eff["novelty_cap_per_node"]), float(eff["delta_norm_cap_l2"]), int(eff["churn_cap_edges"]), eff["cooldowns"]
+
+
+def ref_kind(o):
+    return "" if o["shape"] in ("nokind", "nonekind") else o["kind"]
 
 
 def ref_blocked(case):
-    if case["meta_shape"] == "none":
+    if case["meta_shape"] in ("none", "state_none", "nondict", "meta_none"):
         last = {}
     else:
         last = case["last"]
-    turn = ref_turn(case["turn"])
+    cooldowns = eff_caps(case)[3]
+    turn = ref_turn(case)
     out = []
     for i, o in enumerate(case["ops"]):
-        kind = o["kind"]
+        kind = ref_kind(o)
         if not kind:
             continue
-        cd = case["cooldowns"].get(kind)
+        cd = cooldowns.get(kind)
         if not cd:
             continue
         lt = last.get(kind)
@@ -151,18 +478,23 @@ def ref_blocked(case):
     return out
 
 
+def _min_opt(a, b):
+    return b if a is None else (a if b is None else min(a, b))
+
+
 def ref_pipeline(case):
     """Exact-rational merge -> cooldown -> clamp -> uniform scale -> top-K. Returns dict with stage info."""
+    nov, l2, k_cap, _ = eff_caps(case)
     merged = {}
     for d in case["deltas"]:
         k = ckey(d)
         if k not in merged:
-            merged[k] = {"sum": Fraction(0), "op": None, "n": 0}
+            merged[k] = {"sum": Fraction(0), "op": None, "idx": None, "n": 0, "triple": (d["k"], d["id"], d["attr"])}
         m = merged[k]
         m["sum"] += Fraction(d["v"])
         m["n"] += 1
-        if d["op_idx"] is not None:
-            m["op"] = d["op_idx"] if m["op"] is None else min(m["op"], d["op_idx"])
+        m["op"] = _min_opt(m["op"], d["op_idx"])
+        m["idx"] = _min_opt(m["idx"], d["idx"])
     blocked = set(ref_blocked(case))
     def _to_float(fr):
         try:
@@ -170,20 +502,23 @@ def ref_pipeline(case):
         except OverflowError:  # the exact sum lies beyond the float range
             return math.inf if fr > 0 else -math.inf
     after = {k: _to_float(m["sum"]) for k, m in merged.items() if m["op"] is None or m["op"] not in blocked}
-    cap = abs(float(case["novelty"]))
+    cap = abs(nov)
     n_clamped = sum(1 for v in after.values() if abs(v) > cap)
     clamped = {k: (math.copysign(cap, v) if abs(v) > cap else v) for k, v in after.items()}
-    norm = math.sqrt(math.fsum(v * v for v in clamped.values()))
-    l2 = float(case["l2"])
+    norm = math.hypot(*clamped.values()) if clamped else 0.0  # no underflow of the squares, <= 1 ulp
     scale = 1.0
     if norm > l2 and norm != 0.0:
         scale = l2 / norm
     scaled = {k: v * scale for k, v in clamped.items()}
-    k_cap = int(case["churn"])
     keys = sorted(scaled, key=lambda k: (-abs(scaled[k]), k))
     kept = keys[:k_cap] if len(keys) > k_cap else keys
     return {"merged": merged, "blocked": sorted(blocked), "after": after, "clamped": clamped, "n_clamped": n_clamped,
             "norm": norm, "scale": scale, "scaled": scaled, "kept": sorted(kept), "dropped": max(0, len(keys) - k_cap)}
+
+
+def in_subnormal_band(case):
+    """Post-clamp sum of squares in (0, 1e-290): some squares are subnormal and none is large enough to hide that."""
+    return 0.0 < math.fsum(v * v for v in ref_pipeline(case)["clamped"].values()) < 1e-290
 
 
 def res_view(r):
@@ -202,22 +537,26 @@ def check_case(case, rec=None):
 
     ctx, state, plan = build(case)
     snap = copy.deepcopy((ctx, state, plan))
+    extras = (SimpleNamespace(graph_deltas=[{"id": "n:a", "delta": 9.0}], metrics={"pops": 3}),
+              SimpleNamespace(retrieved=[], graph_deltas_residual=[], metrics={"k_returned": 0}),
+              "an utterance") if case.get("extras") else (None, None, None)
     try:
-        r1 = t4_filter(ctx, state, None, None, plan, None)
+        r1 = t4_filter(ctx, state, extras[0], extras[1], plan, extras[2])
     except Exception as e:  # total on the accepted domain
         raise Violation(f"t4_filter raised {type(e).__name__}: {e}", case, "raises")
     if (ctx, state, plan) != snap:
         raise Violation("t4_filter mutated its arguments", case, "mutates")
-    r2 = t4_filter(ctx, state, None, None, plan, None)
+    r2 = t4_filter(ctx, state, extras[0], extras[1], plan, extras[2])
     if not views_equal(res_view(r1), res_view(r2)):
         raise Violation("two calls on the same arguments differ", case, "nondeterministic")
 
     ref = ref_pipeline(case)
+    nov, l2, churn, _ = eff_caps(case)
+    nov = abs(nov)
     app = r1.approved_deltas
     keys = [f"{d.target_kind}:{d.target_id}:{d.attr}" for d in app]
     proposed = {ckey(d) for d in case["deltas"]}
-    nov = abs(float(case["novelty"]))
-    l2 = float(case["l2"])
+    triples = {(d["k"], d["id"], d["attr"]) for d in case["deltas"]}
 
     # --- A: envelope
     if len(set(keys)) != len(keys):
@@ -225,18 +564,20 @@ def check_case(case, rec=None):
     if not set(keys) <= proposed:
         raise Violation(f"approved target never proposed: {sorted(set(keys) - proposed)}", case, "unproposed")
     for d in app:
+        if (d.target_kind, d.target_id, d.attr) not in triples:
+            raise Violation(f"approved target {(d.target_kind, d.target_id, d.attr)!r} was never proposed", case, "unproposed")
         if not (abs(d.delta) <= nov):
             raise Violation(f"|delta|={abs(d.delta)!r} exceeds novelty cap {nov!r} for {d.target_id}", case, "novelty")
-    norm = math.sqrt(math.fsum(d.delta * d.delta for d in app))
-    if norm > l2 * (1 + 1e-12):
+    norm = math.hypot(*[float(d.delta) for d in app]) if app else 0.0
+    if norm > l2 * (1 + 1e-12) + len(app) * 5e-324:  # (+ half a denormal step per component)
         raise Violation(f"L2 norm {norm!r} exceeds cap {l2!r}", case, "l2")
-    if len(app) > int(case["churn"]):
-        raise Violation(f"{len(app)} approved > churn cap {case['churn']}", case, "churn")
+    if len(app) > churn:
+        raise Violation(f"{len(app)} approved > churn cap {churn}", case, "churn")
     blocked = set(ref["blocked"])
     for d, k in zip(app, keys):
         if ref["merged"][k]["op"] is not None and ref["merged"][k]["op"] in blocked:
             raise Violation(f"approved delta {k} originates from op {ref['merged'][k]['op']} in cooldown", case, "cooldown")
-    want_rej = [(case["ops"][i]["kind"], i) for i in ref["blocked"]]
+    want_rej = [(ref_kind(case["ops"][i]), i) for i in ref["blocked"]]
     got_rej = [(o.kind, o.idx) for o in r1.rejected_ops]
     if got_rej != want_rej:
         raise Violation(f"rejected_ops {got_rej} != blocked ops {want_rej}", case, "rejected-ops")
@@ -245,7 +586,7 @@ def check_case(case, rec=None):
 
     # --- B: reference pipeline (keys and values)
     tol = lambda x: max(1e-12 * abs(x), 1e-322)
-    near_norm = abs(ref["norm"] - l2) <= 1e-12 * max(l2, ref["norm"])
+    near_norm = math.isfinite(l2) and abs(ref["norm"] - l2) <= 1e-12 * max(l2, ref["norm"])
     # reasons <=> stage effects
     want = []
     if ref["blocked"]:
@@ -269,30 +610,82 @@ def check_case(case, rec=None):
     cand = ref["scaled"]
     if kept - set(cand):
         raise Violation(f"approved {sorted(kept - set(cand))} should have been removed before the caps", case, "ref-keys")
-    want_n = min(len(cand), int(case["churn"]))
+    want_n = min(len(cand), churn)
     if len(kept) != want_n:
         raise Violation(f"approved {len(kept)} deltas, documented pipeline keeps {want_n}", case, "ref-count")
     pre = ref["clamped"]
+    tie_at_cut = collapse = False
     for a in kept:
         for b in set(cand) - kept:
             ma, mb = abs(pre[a]), abs(pre[b])
-            if ma == mb:
-                if not a < b and abs(cand[a]) == abs(cand[b]):
+            sa, sb = abs(cand[a]), abs(cand[b])
+            if ma == mb:  # equal before the uniform scaling = equal after it: the canonical key decides
+                tie_at_cut = True
+                if not a < b:
                     raise Violation(f"tie at churn boundary broken against key order: kept {a}, dropped {b}", case, "tie")
-            elif ma < mb * (1 - 1e-12):
-                raise Violation(f"kept {a} (|{pre[a]!r}|) while dropping larger {b} (|{pre[b]!r}|)", case, "topk")
+            elif sb - sa > tol(sb) + tol(sa):  # the ranking is on the SCALED magnitudes (they may collapse near 0)
+                raise Violation(f"kept {a} (|{cand[a]!r}|) while dropping larger {b} (|{cand[b]!r}|)", case, "topk")
+            elif ma < mb:
+                collapse = True
     if not near_norm:
         for d, k in zip(app, keys):
             if abs(d.delta - cand[k]) > tol(cand[k]):
                 raise Violation(f"value for {k}: got {d.delta!r}, documented pipeline gives {cand[k]!r}", case, "ref-value")
+    # provenance of a merged delta: the smallest op index / original index (documented by _combine_by_ckey)
+    for d, k in zip(app, keys):
+        m = ref["merged"][k]
+        if d.op_idx != m["op"] or d.idx != m["idx"]:
+            raise Violation(f"provenance of {k}: got op_idx={d.op_idx!r} idx={d.idx!r}, merge keeps the smallest: "
+                            f"op_idx={m['op']!r} idx={m['idx']!r}", case, "provenance")
+    # metrics, field by field
+    met = r1.metrics
+    n_after = len(ref["after"])
+    want_counts = {"input": len(case["deltas"]), "after_cooldown": n_after, "after_novelty": n_after, "after_l2": n_after,
+                   "approved": len(app), "dropped_tail": ref["dropped"]}
+    got_counts = {k: met.get("counts", {}).get(k) for k in want_counts}
+    if got_counts != want_counts:
+        raise Violation(f"metrics.counts {got_counts} != {want_counts}", case, "metrics-counts")
+    if met.get("clamps", {}).get("novelty_clamped") != ref["n_clamped"]:
+        raise Violation(f"metrics.clamps.novelty_clamped {met.get('clamps', {}).get('novelty_clamped')!r} != {ref['n_clamped']}",
+                        case, "metrics-clamps")
+    got_scale = met.get("clamps", {}).get("l2_scale")
+    scale_ok = isinstance(got_scale, float) and (abs(got_scale - ref["scale"]) <= tol(ref["scale"])
+                                                 or (near_norm and (got_scale == 1.0 or abs(got_scale - 1.0) <= 2e-12)))
+    if not scale_ok:
+        raise Violation(f"metrics.clamps.l2_scale {got_scale!r}, documented pipeline scales by {ref['scale']!r}", case,
+                        "metrics-scale")
+    if met.get("cooldowns", {}).get("blocked_ops") != len(ref["blocked"]):
+        raise Violation(f"metrics.cooldowns.blocked_ops {met.get('cooldowns', {}).get('blocked_ops')!r} != "
+                        f"{len(ref['blocked'])} blocked ops", case, "metrics-blocked")
+    want_caps = {"delta_norm_cap_l2": l2, "novelty_cap_per_node": eff_caps(case)[0], "churn_cap_edges": churn}
+    got_caps = {k: met.get("caps", {}).get(k) for k in want_caps}
+    if got_caps != want_caps:
+        raise Violation(f"metrics.caps {got_caps} != configured {want_caps}", case, "metrics-caps")
 
-    # --- C: permutation invariance
-    ctx2, state2, plan2 = build(case, order=case["perm"])
+    # --- C: permutation invariance (delta list permuted; mapping arguments built in reverse insertion order)
+    ctx2, state2, plan2 = build(case, order=case["perm"], rev=True)
     r3 = t4_filter(ctx2, state2, None, None, plan2, None)
     v1, v3 = res_view(r1), res_view(r3)
     if not views_equal(v1, v3):
-        raise Violation(f"result depends on the order of the delta list: {v1[0]} vs {v3[0]} (perm {case['perm']})", case,
-                        "order-dependent")
+        raise Violation(f"result depends on the order of the delta list: {v1[0][:8]} vs {v3[0][:8]} (perm {case['perm'][:20]})",
+                        case, "order-dependent")
+
+    # --- C': the same objects edited in place, called again == fresh objects with the same content
+    edit = case.get("edit")
+    if edit:
+        case2 = apply_edit(case, edit)
+        fresh = build(case2)
+        t4_filter(ctx, state, None, None, plan, None)  # the call right before the edit sees these very objects
+        edit_in_place((ctx, state, plan), build(case2))
+        try:
+            r4 = t4_filter(ctx, state, None, None, plan, None)
+            r5 = t4_filter(*fresh[:2], None, None, fresh[2], None)
+        except Exception as e:
+            raise Violation(f"t4_filter raised {type(e).__name__}: {e} (second call, after an in-place edit)", case, "raises")
+        v4, v5 = res_view(r4), res_view(r5)
+        if not views_equal(v4, v5):
+            raise Violation(f"after editing the argument objects in place ({edit}) the result differs from a call on fresh "
+                            f"objects with the same content: {v4[0][:6]} {v4[1:3]} vs {v5[0][:6]} {v5[1:3]}", case, "stale-state")
 
     if rec is not None:
         dup = any(m["n"] > 1 for m in ref["merged"].values())
@@ -300,6 +693,41 @@ def check_case(case, rec=None):
         stages = len(r1.reasons)
         labels = [f"reasons={stages}"] + (["dup"] if dup else []) + (["boundary"] if boundary else []) + \
                  (["blocked"] if ref["blocked"] else []) + (["near_norm"] if near_norm else [])
+        labels += [f"cfg={case.get('cfg_shape')}", f"state={case['meta_shape']}", f"plan={case.get('plan_shape')}"]
+        kinds_blocked = [ref_kind(case["ops"][i]) for i in ref["blocked"]]
+        T = ref_turn(case)
+        cds = eff_caps(case)[3]
+        flags = {
+            "blocked_same_kind_many": len(kinds_blocked) != len(set(kinds_blocked)),
+            "blocked_op0": 0 in blocked,
+            "blocked_op_without_own_delta": bool(blocked - {m["op"] for m in ref["merged"].values()}),
+            "blocked_delta_dropped": len(ref["after"]) < len(ref["merged"]),
+            "cd_boundary": any(isinstance(case["last"].get(k), int) and T - case["last"][k] in (cd, cd - 1)
+                               for k, cd in cds.items() if cd),
+            "last_future": any(isinstance(v, int) and not isinstance(v, bool) and v > T for v in case["last"].values()),
+            "opidx_negative": any(isinstance(d["op_idx"], int) and d["op_idx"] < 0 for d in case["deltas"]),
+            "opidx_out_of_range": any(isinstance(d["op_idx"], int) and d["op_idx"] >= len(case["ops"]) for d in case["deltas"]),
+            "churn_binds": ref["dropped"] > 0,
+            "churn_eq_targets": churn == len(cand),
+            "churn_zero": churn == 0 and bool(cand),
+            "tie_at_cut": tie_at_cut,
+            "scaled_collapse": collapse,
+            "l2_binds": ref["scale"] < 1.0,
+            "l2_and_churn_bind": ref["scale"] < 1.0 and ref["dropped"] > 0,
+            "l2_inf_or_huge": l2 >= 1e308,
+            "novelty_denormal": nov < 2.3e-308,
+            "l2_below_1e-150": l2 < 1e-150,
+            "squares_subnormal_l2_binds": ref["scale"] < 1.0 and 0.0 < math.fsum(v * v for v in pre.values()) < 1e-290,
+            "squares_all_zero_l2_binds": ref["scale"] < 1.0 and all(v * v == 0.0 for v in pre.values()),
+            "targets>64": len(ref["merged"]) > 64,
+            "edit": bool(edit),
+            "turn_not_turn_id": "turn_id" not in turn_names_of(case) or not isinstance(turn_names_of(case)["turn_id"], int),
+            "str_spelled_caps": case.get("spell") == "str",
+            "distractor_leaves": bool(case.get("distract")),
+            "ids_prefix_pair": len({d["id"] for d in case["deltas"]} & {"n:a", "n:a:b", "n:a0", "n:a-"}) >= 2,
+            "no_deltas": not case["deltas"],
+        }
+        labels += [k for k, v in flags.items() if v]
         nt = dup and (stages >= 2 or boundary)
         rec.case(nontrivial=nt, dig=digest(case) if nt else None, labels=labels,
                  sample={"deltas": case["deltas"][:6], "caps": [case["novelty"], case["l2"], case["churn"]],
